@@ -183,7 +183,8 @@ Section Proofs.
   Notation sig := (sig H).
   Notation check_signature := (check_signature H H_eqb hash).
   Notation sig_loop := (sig_loop H H_eqb hash).
-  Notation validate_sigs_common := (validate_sigs_common H H_eqb hash).
+  Notation legacy_validate_sigs_common := (legacy_validate_sigs_common H H_eqb hash).
+  Notation legacy_validate_sigs := (legacy_validate_sigs H H_eqb hash).
   Notation validate_sigs := (validate_sigs H H_eqb hash).
   Notation valid_sig_by := (valid_sig_by H hash).
   Notation sig_rule := (sig_rule H hash).
@@ -311,11 +312,11 @@ Section Proofs.
   Lemma common_iff fl ks m signers sigs :
     (Z.of_nat (length (ks_keypers ks)) < 2 ^ 31)%Z ->
     length sigs = length signers ->
-    (validate_sigs_common fl ks m signers sigs = Accept <->
+    (legacy_validate_sigs_common fl ks m signers sigs = Accept <->
      (length (m_ids m) <= 1024)%nat /\ sig_rule fl ks m signers sigs)
-    /\ validate_sigs_common fl ks m signers sigs <> Panic.
+    /\ legacy_validate_sigs_common fl ks m signers sigs <> Panic.
   Proof.
-    intros Hn Hl. unfold validate_sigs_common, sig_rule.
+    intros Hn Hl. unfold legacy_validate_sigs_common, sig_rule.
     destruct (to_i32 (Z.of_nat (length signers)) =? ks_threshold ks)%Z eqn:Ec; simpl.
     2:{ split; [|discriminate]. split; [discriminate|].
         intros [_ [Hc [Hs [Hf _]]]]. apply Z.eqb_neq in Ec. exfalso. apply Ec.
@@ -421,16 +422,16 @@ Section Binding.
   Hypothesis hash_inj : forall t t',
     hashable t = true -> hashable t' = true -> hash t = hash t' -> t = t'.
 
-  Notation validate_sigs_common := (validate_sigs_common H H_eqb hash).
+  Notation legacy_validate_sigs_common := (legacy_validate_sigs_common H H_eqb hash).
   Notation valid_sig_by := (valid_sig_by H hash).
 
   Lemma common_verdict fl ks m signers sigs :
     (Z.of_nat (length (ks_keypers ks)) < 2 ^ 31)%Z -> length sigs = length signers ->
-    validate_sigs_common fl ks m signers sigs = Accept \/
-    exists r, validate_sigs_common fl ks m signers sigs = Reject r.
+    legacy_validate_sigs_common fl ks m signers sigs = Accept \/
+    exists r, legacy_validate_sigs_common fl ks m signers sigs = Reject r.
   Proof.
     intros Hn Hl. destruct (common_iff H H_eqb hash H_eqb_spec fl ks m signers sigs Hn Hl) as [_ Hp].
-    destruct (validate_sigs_common fl ks m signers sigs) as [|r|]; [left; reflexivity | right; eauto | contradiction].
+    destruct (legacy_validate_sigs_common fl ks m signers sigs) as [|r|]; [left; reflexivity | right; eauto | contradiction].
   Qed.
 
   Lemma signed_tuple_differs fl m m' :
@@ -443,9 +444,9 @@ Section Binding.
   Lemma common_tuple_binding fl ks m m' signers sigs :
     (Z.of_nat (length (ks_keypers ks)) < 2 ^ 31)%Z -> length sigs = length signers ->
     signers <> [] ->
-    validate_sigs_common fl ks m signers sigs = Accept ->
+    legacy_validate_sigs_common fl ks m signers sigs = Accept ->
     signed_tuple fl m' <> signed_tuple fl m ->
-    exists r, validate_sigs_common fl ks m' signers sigs = Reject r.
+    exists r, legacy_validate_sigs_common fl ks m' signers sigs = Reject r.
   Proof.
     intros Hn Hl Hne Ha Hd.
     destruct (common_verdict fl ks m' signers sigs Hn Hl) as [Ha'|Hr]; [|exact Hr].
@@ -475,8 +476,8 @@ Section Binding.
   Lemma common_sig_unique fl ks m signers sigs sigs' :
     (Z.of_nat (length (ks_keypers ks)) < 2 ^ 31)%Z ->
     length sigs = length signers -> length sigs' = length signers ->
-    validate_sigs_common fl ks m signers sigs = Accept ->
-    validate_sigs_common fl ks m signers sigs' = Accept ->
+    legacy_validate_sigs_common fl ks m signers sigs = Accept ->
+    legacy_validate_sigs_common fl ks m signers sigs' = Accept ->
     sigs = sigs'.
   Proof.
     intros Hn Hl Hl' Ha Ha'.
@@ -489,34 +490,35 @@ Section Binding.
 End Binding.
 
 (* ------------------------------------------------------------------------------------- *)
-(* The validators as they are on the pinned tree: the rule holds among messages whose two
-   lists have the same length; outside that class it fails (see the refutations below). *)
-Section PinnedTree.
+(* The validators as they were on the pinned tree (legacy_ copies in the model): the rule holds
+   among messages whose two lists have the same length; outside that class it fails (see the
+   refutations below). *)
+Section Legacy.
   Variable H : Type.
   Variable H_eqb : H -> H -> bool.
   Variable hash : tuple -> H.
   Hypothesis H_eqb_spec : forall a b, H_eqb a b = true <-> a = b.
 
-  Notation validate_sigs := (validate_sigs H H_eqb hash).
+  Notation legacy_validate_sigs := (legacy_validate_sigs H H_eqb hash).
   Notation sig_rule := (sig_rule H hash).
 
-  Theorem gnosis_iff_equal_lengths ks m signers sigs :
+  Theorem legacy_gnosis_iff_equal_lengths ks m signers sigs :
     (Z.of_nat (length (ks_keypers ks)) < 2 ^ 31)%Z ->
     length sigs = length signers ->
-    (validate_sigs Gnosis ks m signers sigs = Accept <->
+    (legacy_validate_sigs Gnosis ks m signers sigs = Accept <->
      (length (m_ids m) <= 1024)%nat /\ sig_rule Gnosis ks m signers sigs)
-    /\ validate_sigs Gnosis ks m signers sigs <> Panic.
+    /\ legacy_validate_sigs Gnosis ks m signers sigs <> Panic.
   Proof. intros Hn Hl. exact (common_iff H H_eqb hash H_eqb_spec Gnosis ks m signers sigs Hn Hl). Qed.
 
-  Theorem service_iff_equal_lengths ks m signers sigs :
+  Theorem legacy_service_iff_equal_lengths ks m signers sigs :
     (Z.of_nat (length (ks_keypers ks)) < 2 ^ 31)%Z ->
     length sigs = length signers ->
-    (validate_sigs Service ks m signers sigs = Accept <->
+    (legacy_validate_sigs Service ks m signers sigs = Accept <->
      (signers = [] /\ sigs = []) \/
      ((length (m_ids m) <= 1024)%nat /\ sig_rule Service ks m signers sigs))
-    /\ validate_sigs Service ks m signers sigs <> Panic.
+    /\ legacy_validate_sigs Service ks m signers sigs <> Panic.
   Proof.
-    intros Hn Hl. unfold KeysSig.validate_sigs.
+    intros Hn Hl. unfold KeysSig.legacy_validate_sigs.
     destruct signers as [|i r]; destruct sigs as [|s rest]; try discriminate.
     - simpl. split; [|discriminate]. split; [intros _; left; split; reflexivity | reflexivity].
     - change ((length (i :: r) =? 0)%nat || (length (s :: rest) =? 0)%nat)%bool with false.
@@ -526,25 +528,25 @@ Section PinnedTree.
       intros [[E _]|G]; [discriminate | exact G].
   Qed.
 
-  Theorem accept_binds_tuple_equal_lengths fl ks m m' signers sigs :
+  Theorem legacy_accept_binds_tuple_equal_lengths fl ks m m' signers sigs :
     (forall t t', hashable t = true -> hashable t' = true -> hash t = hash t' -> t = t') ->
     (Z.of_nat (length (ks_keypers ks)) < 2 ^ 31)%Z ->
     length sigs = length signers -> signers <> [] ->
-    validate_sigs fl ks m signers sigs = Accept ->
+    legacy_validate_sigs fl ks m signers sigs = Accept ->
     differs_in_signed_field fl m m' ->
-    exists r, validate_sigs fl ks m' signers sigs = Reject r.
+    exists r, legacy_validate_sigs fl ks m' signers sigs = Reject r.
   Proof.
     intros Hinj Hn Hl Hne Ha Hd. apply signed_tuple_differs in Hd.
     destruct signers as [|i r]; [congruence|]. destruct sigs as [|s rest]; [discriminate|].
-    destruct fl; unfold KeysSig.validate_sigs in *;
+    destruct fl; unfold KeysSig.legacy_validate_sigs in *;
       [| change ((length (i :: r) =? 0)%nat || (length (s :: rest) =? 0)%nat)%bool with false in *;
          cbv iota in * ];
       eapply (common_tuple_binding H H_eqb hash H_eqb_spec Hinj); eassumption.
   Qed.
-End PinnedTree.
+End Legacy.
 
-(* Refutations on the executable instance (the one the correspondence stream runs against the
-   real validators): keyper set {1, 4} with threshold 2, message (42, 7, 1000, 3, two ids). *)
+(* Refutations of the legacy functions on the executable instance (the one the correspondence
+   stream ran against the real validators before the repairs): keyper set {1, 4} with threshold 2, message (42, 7, 1000, 3, two ids). *)
 Definition wit_ks : keyperset := Build_keyperset [Some 1%N; Some 4%N] 2.
 Definition wit_ids (w : nat) : list bytes := [1%N :: repeat 0%N (w - 1); 2%N :: repeat 0%N (w - 1)].
 Definition wit_msg (fl : flavour) : keysmsg :=
@@ -556,27 +558,27 @@ Definition wit_good (fl : flavour) (a : N) : csig := SigBy a (signed_tuple fl (w
 
 (* two listed signers, no signature at all: accepted *)
 Lemma fewer_signatures_accepted fl :
-  c_validate_sigs fl wit_ks (wit_msg fl) [0%N; 1%N] [] = Accept.
+  c_legacy_validate_sigs fl wit_ks (wit_msg fl) [0%N; 1%N] [] = Accept.
 Proof. destruct fl; vm_compute; reflexivity. Qed.
 
 (* two listed signers, one genuine signature, the second missing: accepted *)
 Lemma one_of_two_signatures_accepted fl :
-  c_validate_sigs fl wit_ks (wit_msg fl) [0%N; 1%N] [wit_good fl 1%N] = Accept.
+  c_legacy_validate_sigs fl wit_ks (wit_msg fl) [0%N; 1%N] [wit_good fl 1%N] = Accept.
 Proof. destruct fl; vm_compute; reflexivity. Qed.
 
 (* two genuine signatures followed by a third entry: index out of range *)
 Lemma more_signatures_panic fl :
-  c_validate_sigs fl wit_ks (wit_msg fl) [0%N; 1%N]
+  c_legacy_validate_sigs fl wit_ks (wit_msg fl) [0%N; 1%N]
                   [wit_good fl 1%N; wit_good fl 4%N; SigMalformed] = Panic.
 Proof. destruct fl; vm_compute; reflexivity. Qed.
 
 (* service flavour: signatures without signers, and a signer list that fits no rule
    (wrong count, repeated, out of range) without signatures *)
 Lemma service_signatures_without_signers_accepted :
-  c_validate_sigs Service wit_ks (wit_msg Service) [] [SigMalformed] = Accept.
+  c_legacy_validate_sigs Service wit_ks (wit_msg Service) [] [SigMalformed] = Accept.
 Proof. vm_compute; reflexivity. Qed.
 Lemma service_signers_without_signatures_accepted :
-  c_validate_sigs Service wit_ks (wit_msg Service) [7%N; 7%N; 7%N] [] = Accept.
+  c_legacy_validate_sigs Service wit_ks (wit_msg Service) [7%N; 7%N; 7%N] [] = Accept.
 Proof. vm_compute; reflexivity. Qed.
 
 (* The executable instance meets the premises of the theorems. *)
@@ -601,3 +603,202 @@ Proof.
     congruence.
   - injection E as -> -> ->. rewrite !N.eqb_refl. simpl. apply bytes_list_eqb_spec. reflexivity.
 Qed.
+
+(* ------------------------------------------------------------------------------------- *)
+(* The repaired validators ([validate_sigs]): the full rule, for all inputs. *)
+Section Repaired.
+  Variable H : Type.
+  Variable H_eqb : H -> H -> bool.
+  Variable hash : tuple -> H.
+  Hypothesis H_eqb_spec : forall a b, H_eqb a b = true <-> a = b.
+
+  Notation validate_sigs_common := (validate_sigs_common H H_eqb hash).
+  Notation validate_sigs := (validate_sigs H H_eqb hash).
+  Notation legacy_common := (legacy_validate_sigs_common H H_eqb hash).
+  Notation sig_rule := (sig_rule H hash).
+
+  Lemma common_eq_legacy fl ks m signers sigs :
+    length sigs = length signers ->
+    validate_sigs_common fl ks m signers sigs = legacy_common fl ks m signers sigs.
+  Proof.
+    intros Hl. unfold KeysSig.validate_sigs_common, legacy_validate_sigs_common.
+    rewrite Hl, Nat.eqb_refl. reflexivity.
+  Qed.
+
+  Lemma common_len_mismatch fl ks m signers sigs :
+    length sigs <> length signers ->
+    exists r, validate_sigs_common fl ks m signers sigs = Reject r.
+  Proof.
+    intros Hl. unfold KeysSig.validate_sigs_common.
+    destruct (negb (to_i32 (Z.of_nat (length signers)) =? ks_threshold ks)%Z); [eauto|].
+    apply Nat.eqb_neq in Hl. rewrite Hl. simpl. eauto.
+  Qed.
+
+  Theorem common_full_iff fl ks m signers sigs :
+    (Z.of_nat (length (ks_keypers ks)) < 2 ^ 31)%Z ->
+    (validate_sigs_common fl ks m signers sigs = Accept <->
+     (length (m_ids m) <= 1024)%nat /\ sig_rule fl ks m signers sigs)
+    /\ validate_sigs_common fl ks m signers sigs <> Panic.
+  Proof.
+    intros Hn. destruct (Nat.eq_dec (length sigs) (length signers)) as [Hl|Hl].
+    - rewrite (common_eq_legacy _ _ _ _ _ Hl). apply common_iff; assumption.
+    - destruct (common_len_mismatch fl ks m signers sigs Hl) as [r Hr]. rewrite Hr.
+      split; [|discriminate]. split; [discriminate|].
+      intros [_ [_ [_ [_ [Hl' _]]]]]. contradiction.
+  Qed.
+
+  Theorem gnosis_iff ks m signers sigs :
+    (Z.of_nat (length (ks_keypers ks)) < 2 ^ 31)%Z ->
+    (validate_sigs Gnosis ks m signers sigs = Accept <->
+     (length (m_ids m) <= 1024)%nat /\ sig_rule Gnosis ks m signers sigs)
+    /\ validate_sigs Gnosis ks m signers sigs <> Panic.
+  Proof. intros Hn. exact (common_full_iff Gnosis ks m signers sigs Hn). Qed.
+
+  Theorem service_iff ks m signers sigs :
+    (Z.of_nat (length (ks_keypers ks)) < 2 ^ 31)%Z ->
+    (validate_sigs Service ks m signers sigs = Accept <->
+     (signers = [] /\ sigs = []) \/
+     ((length (m_ids m) <= 1024)%nat /\ sig_rule Service ks m signers sigs))
+    /\ validate_sigs Service ks m signers sigs <> Panic.
+  Proof.
+    intros Hn. unfold KeysSig.validate_sigs.
+    destruct (common_full_iff Service ks m signers sigs Hn) as [Hi Hp].
+    destruct signers as [|i r]; [destruct sigs as [|s rest]|].
+    - simpl. split; [|discriminate]. split; [intros _; left; split; reflexivity | reflexivity].
+    - change ((length (@nil N) =? 0)%nat && (length (s :: rest) =? 0)%nat)%bool with false.
+      cbv iota. split; [|exact Hp]. rewrite Hi. split; [intros G; right; exact G|].
+      intros [[_ E]|G]; [discriminate | exact G].
+    - change ((length (i :: r) =? 0)%nat && (length sigs =? 0)%nat)%bool with false.
+      cbv iota. split; [|exact Hp]. rewrite Hi. split; [intros G; right; exact G|].
+      intros [[E _]|G]; [discriminate | exact G].
+  Qed.
+
+  Lemma verdict_cases fl ks m signers sigs :
+    (Z.of_nat (length (ks_keypers ks)) < 2 ^ 31)%Z ->
+    validate_sigs fl ks m signers sigs = Accept \/
+    exists r, validate_sigs fl ks m signers sigs = Reject r.
+  Proof.
+    intros Hn.
+    assert (Hp : validate_sigs fl ks m signers sigs <> Panic)
+      by (destruct fl; [apply gnosis_iff | apply service_iff]; assumption).
+    destruct (validate_sigs fl ks m signers sigs) as [|r|]; [left; reflexivity | right; eauto | contradiction].
+  Qed.
+
+  (* what Accept means, in both flavours *)
+  Lemma accept_cases fl ks m signers sigs :
+    (Z.of_nat (length (ks_keypers ks)) < 2 ^ 31)%Z ->
+    validate_sigs fl ks m signers sigs = Accept ->
+    (fl = Service /\ signers = [] /\ sigs = []) \/ sig_rule fl ks m signers sigs.
+  Proof.
+    intros Hn Ha. destruct fl.
+    - apply (gnosis_iff ks m signers sigs Hn) in Ha. right. apply Ha.
+    - apply (service_iff ks m signers sigs Hn) in Ha. destruct Ha as [[E1 E2]|[_ G]]; [left; auto | right; exact G].
+  Qed.
+
+  Lemma rule_sig_unique fl ks m signers sigs sigs' :
+    sig_rule fl ks m signers sigs -> sig_rule fl ks m signers sigs' -> sigs = sigs'.
+  Proof.
+    intros [_ [_ [_ [_ F]]]] [_ [_ [_ [_ F']]]].
+    eapply Forall2_functional; [|exact F|exact F'].
+    intros a b b'. apply valid_sig_by_functional.
+  Qed.
+
+  Lemma rule_nil_sigs fl ks m sigs : sig_rule fl ks m [] sigs -> sigs = [].
+  Proof. intros [_ [_ [_ [Hl _]]]]. destruct sigs; [reflexivity | discriminate]. Qed.
+
+  (* any change of the signature list of an accepted message is rejected *)
+  Theorem accept_binds_signatures fl ks m signers sigs sigs' :
+    (Z.of_nat (length (ks_keypers ks)) < 2 ^ 31)%Z ->
+    validate_sigs fl ks m signers sigs = Accept -> sigs' <> sigs ->
+    exists r, validate_sigs fl ks m signers sigs' = Reject r.
+  Proof.
+    intros Hn Ha Hd. destruct (verdict_cases fl ks m signers sigs' Hn) as [Ha'|Hr]; [|exact Hr].
+    exfalso. apply Hd.
+    destruct (accept_cases _ _ _ _ _ Hn Ha) as [[_ [E1 E2]]|G];
+      destruct (accept_cases _ _ _ _ _ Hn Ha') as [[_ [E1' E2']]|G'].
+    - congruence.
+    - subst. apply (rule_nil_sigs _ _ _ _ G').
+    - subst. symmetry. apply (rule_nil_sigs _ _ _ _ G).
+    - symmetry. eapply rule_sig_unique; eassumption.
+  Qed.
+
+  (* any change of a signed field of an accepted message with at least one signer is rejected *)
+  Theorem accept_binds_tuple fl ks m m' signers sigs :
+    (forall t t', hashable t = true -> hashable t' = true -> hash t = hash t' -> t = t') ->
+    (Z.of_nat (length (ks_keypers ks)) < 2 ^ 31)%Z ->
+    signers <> [] ->
+    validate_sigs fl ks m signers sigs = Accept ->
+    differs_in_signed_field fl m m' ->
+    exists r, validate_sigs fl ks m' signers sigs = Reject r.
+  Proof.
+    intros Hinj Hn Hne Ha Hd.
+    assert (Hl : length sigs = length signers).
+    { destruct (accept_cases _ _ _ _ _ Hn Ha) as [[_ [E _]]|[_ [_ [_ [Hl _]]]]]; [contradiction | exact Hl]. }
+    apply signed_tuple_differs in Hd.
+    assert (Hc : forall x, validate_sigs fl ks x signers sigs = legacy_common fl ks x signers sigs).
+    { intros x. destruct signers as [|i r]; [congruence|]. destruct sigs as [|s rest]; [discriminate|].
+      destruct fl; unfold KeysSig.validate_sigs;
+        [| change ((length (i :: r) =? 0)%nat && (length (s :: rest) =? 0)%nat)%bool with false; cbv iota ];
+        apply common_eq_legacy; assumption. }
+    rewrite Hc in *.
+    eapply (common_tuple_binding H H_eqb hash H_eqb_spec Hinj); eassumption.
+  Qed.
+End Repaired.
+
+(* the repaired validators on the inputs that refute the legacy ones *)
+Lemma repaired_rejects_witnesses fl :
+  c_validate_sigs fl wit_ks (wit_msg fl) [0%N; 1%N] [] = Reject RSigCount /\
+  c_validate_sigs fl wit_ks (wit_msg fl) [0%N; 1%N] [wit_good fl 1%N] = Reject RSigCount /\
+  c_validate_sigs fl wit_ks (wit_msg fl) [0%N; 1%N]
+                  [wit_good fl 1%N; wit_good fl 4%N; SigMalformed] = Reject RSigCount /\
+  c_validate_sigs Service wit_ks (wit_msg Service) [] [SigMalformed] = Reject RSignerCount /\
+  c_validate_sigs Service wit_ks (wit_msg Service) [7%N; 7%N; 7%N] [] = Reject RSignerCount.
+Proof. destruct fl; vm_compute; repeat split; reflexivity. Qed.
+
+(* ------------------------------------------------------------------------------------- *)
+(* Access node and keyper chain: accepted only under the rule, and no panic of their own. *)
+Section Chains.
+  Variable H : Type.
+  Variable H_eqb : H -> H -> bool.
+  Variable hash : tuple -> H.
+  Hypothesis H_eqb_spec : forall a b, H_eqb a b = true <-> a = b.
+
+  Notation validate_sigs := (validate_sigs H H_eqb hash).
+  Notation sig_rule := (sig_rule H hash).
+
+  Theorem an_accept_only_if st m signers sigs :
+    (forall ks, lookup_ks (an_keypersets st) (m_eon m) = Some ks ->
+                (Z.of_nat (length (ks_keypers ks)) < 2 ^ 31)%Z) ->
+    (an_validate H H_eqb hash st m signers sigs = Accept ->
+     exists ks, lookup_ks (an_keypersets st) (m_eon m) = Some ks /\
+                sig_rule Gnosis ks m signers sigs)
+    /\ an_validate H H_eqb hash st m signers sigs <> Panic.
+  Proof.
+    intros Hn. split.
+    - intros Ha. apply an_validate_accept in Ha. destruct Ha as [_ [_ [ks [El Ev]]]].
+      exists ks. split; [exact El|]. apply (gnosis_iff H H_eqb hash H_eqb_spec ks m signers sigs (Hn ks El)) in Ev. apply Ev.
+    - unfold an_validate, an_validate_gnosis.
+      pose proof (an_validate_common_not_panic st m) as Pc.
+      destruct (an_validate_common st m); try discriminate; try contradiction.
+      pose proof (validate_basic_not_panic m) as Pb.
+      destruct (validate_basic m); try discriminate; try contradiction.
+      destruct (lookup_ks (an_keypersets st) (m_eon m)) as [ks|] eqn:El; [|discriminate].
+      apply (gnosis_iff H H_eqb hash H_eqb_spec ks m signers sigs (Hn ks eq_refl)).
+  Qed.
+
+  Theorem keyper_accept_only_if lookup m signers sigs :
+    (forall ks, lookup = Some ks -> (Z.of_nat (length (ks_keypers ks)) < 2 ^ 31)%Z) ->
+    (keyper_validate_gnosis H H_eqb hash lookup m signers sigs = Accept ->
+     exists ks, lookup = Some ks /\ sig_rule Gnosis ks m signers sigs)
+    /\ keyper_validate_gnosis H H_eqb hash lookup m signers sigs <> Panic.
+  Proof.
+    intros Hn. split.
+    - intros Ha. apply keyper_validate_accept in Ha. destruct Ha as [_ [ks [El Ev]]].
+      exists ks. split; [exact El|]. apply (gnosis_iff H H_eqb hash H_eqb_spec ks m signers sigs (Hn ks El)) in Ev. apply Ev.
+    - unfold keyper_validate_gnosis.
+      pose proof (validate_basic_not_panic m) as Pb.
+      destruct (validate_basic m); try discriminate; try contradiction.
+      destruct lookup as [ks|]; [|discriminate].
+      apply (gnosis_iff H H_eqb hash H_eqb_spec ks m signers sigs (Hn ks eq_refl)).
+  Qed.
+End Chains.
